@@ -209,6 +209,10 @@ def _gen_ctor(rng, slots, models):
         return {"op": "new_list", "slot": slot, "values": values}
     if kind == "copy":
         return {"op": "copy", "slot": slot, "src": rng.choice(live)}
+    if rng.random() < 0.2:
+        # dict.fromkeys(keys, []): every key misses from its own (empty, shared) member list
+        keys = rng.sample(UNIVERSE, rng.randint(1, 5))
+        return {"op": "new_dict", "slot": slot, "items": [[k, []] for k in keys], "share": True}
     # dict constructor: groups over a sample of the universe
     values = rng.sample(UNIVERSE, rng.randint(1, 9))
     rng.shuffle(values)
@@ -231,7 +235,7 @@ def _gen_ctor(rng, slots, models):
             k, ms = rng.choice(donors)
             ghost = rng.choice([m for m in ms if not same(m, k)])
             items.insert(rng.randrange(len(items) + 1), [ghost, []])
-    return {"op": "new_dict", "slot": slot, "items": items}
+    return {"op": "new_dict", "slot": slot, "items": items, "share": rng.random() < 0.3}
 
 
 def model_of_ctor(op, models):
@@ -545,8 +549,22 @@ def _execute(spec, GroupedList, stats):  # pylint: disable=C0103
                     lists[slot] = GroupedList(list(op["values"]))
                     replaced.add(slot)
                 elif kind == "new_dict":
-                    lists[slot] = GroupedList({k: list(ms) for k, ms in op["items"]})
+                    # the caller's dict: member lists with equal content may be one shared object
+                    shared: dict[str, list] = {}
+                    given = {}
+                    for k, ms in op["items"]:
+                        key = json.dumps([vkey(m) for m in ms])
+                        if op.get("share") and key in shared:
+                            given[k] = shared[key]
+                        else:
+                            given[k] = shared.setdefault(key, list(ms))
+                    snapshot = {vkey(k): [vkey(m) for m in ms] for k, ms in given.items()}
+                    lists[slot] = GroupedList(given)
                     replaced.add(slot)
+                    if {vkey(k): [vkey(m) for m in ms] for k, ms in given.items()} != snapshot:
+                        raise _Fail("ctor_input_untouched", f"the dict handed to the constructor was modified: {given!r}")
+                    if op.get("share"):
+                        stats.probe("ctor_dict_shared_member_lists")
                     if any(not ms for _, ms in op["items"]):
                         stats.probe("ctor_dict_ghost_key")
                 elif kind == "copy":
